@@ -40,6 +40,8 @@ class Recorder(object):
         self.depth = 0
         self.events = []       # published events of interest (order / trade), in order
         self.match_calls = []
+        self.validations = []  # validator decisions: dict(validator, order, inputs, veto)
+        self.pf_ops = []       # portfolio-level operations
 
     def now(self):
         from rqalpha.environment import Environment
@@ -106,6 +108,84 @@ def instrument(rec):
     wrap(Account, "deposit_withdraw", lambda self, amount, receiving_days=0: {"amount": float(amount), "days": receiving_days,
                                                                              "today": d8(Environment.get_instance().trading_dt)})
     wrap(Account, "finance_repay", lambda self, amount: {"amount": float(amount)})
+    # ---- front-end validators: record every decision with the inputs the validator read
+    from rqalpha.mod.rqalpha_mod_sys_accounts.position_validator import PositionValidator
+    from rqalpha.mod.rqalpha_mod_sys_risk.validators.cash_validator import CashValidator
+    from rqalpha.mod.rqalpha_mod_sys_risk.validators.price_validator import PriceValidator
+    from rqalpha.mod.rqalpha_mod_sys_risk.validators.is_trading_validator import IsTradingValidator
+    from rqalpha.mod.rqalpha_mod_sys_risk.validators.self_trade_validator import SelfTradeValidator
+
+    def order_in(o):
+        return {"id": o.order_id, "book": o.order_book_id, "is_limit": o.type.name == "LIMIT", "price": float(o.price), "frozen_price": float(o._frozen_price) if o._frozen_price is not None else float("nan"),
+                "qty": o.quantity, "effect": o.position_effect.name, "is_buy": o.side.name == "BUY", "direction": o.position_direction.name}
+
+    def wrap_validator(cls, label, inputs):
+        orig = cls.validate_submission
+        saved[(cls, "validate_submission")] = orig
+
+        def w(self, order, account=None):
+            env = Environment.get_instance()
+            try:
+                inp = inputs(env, order, account)
+            except Exception as ex:
+                inp = {"error": repr(ex)}
+            res = orig(self, order, account)
+            rec.validations.append({"validator": label, "order": order_in(order), "inputs": inp, "veto": res is not None, "when": rec.now(),
+                                    "account": None if account is None else account.type})
+            return res
+        cls.validate_submission = w
+
+    def pos_inputs(env, order, account):
+        if account is None:
+            return {}
+        p = account.get_position(order.order_book_id, order.position_direction)
+        return {"closable": p.closable, "today_closable": p.today_closable, "qty": p.quantity, "old": p._old_quantity}
+
+    def cash_inputs(env, order, account):
+        return {"cash": None if account is None else float(account.cash), "order_cost": float(env.get_order_transaction_cost(order))}
+
+    def price_inputs(env, order, account):
+        return {"limit_up": float(env.price_board.get_limit_up(order.order_book_id)), "limit_down": float(env.price_board.get_limit_down(order.order_book_id))}
+
+    def trading_inputs(env, order, account):
+        ins = env.data_proxy.instrument(order.order_book_id)
+        return {"type": str(ins.type), "trading_dt": env.trading_dt}
+
+    def self_inputs(env, order, account):
+        return {"opposite": [(o.type.name, float(o.price)) for o in env.get_open_orders(order.order_book_id) if o.side != order.side]}
+
+    wrap_validator(PositionValidator, "position", pos_inputs)
+    wrap_validator(CashValidator, "cash", cash_inputs)
+    wrap_validator(PriceValidator, "price", price_inputs)
+    wrap_validator(IsTradingValidator, "is_trading", trading_inputs)
+    wrap_validator(SelfTradeValidator, "self_trade", self_inputs)
+
+    # ---- portfolio-level operations
+    from rqalpha.portfolio import Portfolio
+
+    def pf_snap(p):
+        return {"units": float(p._units), "static": float(p._static_unit_net_value), "accounts": [(t, snap_account(a)) for t, a in p._accounts.items()],
+                "total_value": float(p.total_value), "nav": float(p.unit_net_value), "daily_returns": float(p.daily_returns), "total_returns": float(p.total_returns)}
+
+    def wrap_pf(name, make_args):
+        orig = getattr(Portfolio, name)
+        saved[(Portfolio, name)] = orig
+
+        def w(self, *a, **k):
+            pre = pf_snap(self)
+            args = make_args(self, *a, **k)
+            raised = None
+            try:
+                return orig(self, *a, **k)
+            except Exception as ex:
+                raised = ex
+                raise
+            finally:
+                rec.pf_ops.append({"op": name, "pre": pre, "post": pf_snap(self), "args": args, "raised": type(raised).__name__ if raised else None, "when": rec.now()})
+        setattr(Portfolio, name, w)
+    wrap_pf("deposit_withdraw", lambda self, account_type, amount, receiving_days=0: {"account": account_type, "amount": float(amount), "days": receiving_days,
+                                                                                    "today": d8(Environment.get_instance().trading_dt)})
+    wrap_pf("_pre_before_trading", lambda self, ev: {})
     try:
         yield rec
     finally:
